@@ -1139,9 +1139,9 @@ def inline_copied_templates(prog) -> int:
 
 
 def desugar_any_all_with_walrus(fn) -> int:
-    """`return any(<elt with (x := E)> for t in IT [if C])`  ->  the loop it abbreviates
-    (`for t in IT: [if C:] if <elt>: return True` / `return False`; dually for all). Only generator expressions that contain an
-    assignment expression are rewritten: there the expression form hides a statement the rules need to see."""
+    """`return any(<elt> for t in IT [if C])`  ->  the loop it abbreviates
+    (`for t in IT: [if C:] if <elt>: return True` / `return False`; dually for all): the statement form is the one the path rules
+    (facts, reachability, "what happens to this element") are written for."""
     done = 0
     for holder in [fn] + list(_own_nodes(fn)):
         for attr in ("body", "orelse", "finalbody"):
@@ -1153,7 +1153,7 @@ def desugar_any_all_with_walrus(fn) -> int:
                         and len(st.value.args) == 1 and not st.value.keywords and isinstance(st.value.args[0], (ast.GeneratorExp, ast.ListComp))):
                     continue
                 g = st.value.args[0]
-                if len(g.generators) != 1 or g.generators[0].is_async or not any(isinstance(n, ast.NamedExpr) for n in ast.walk(g)):
+                if len(g.generators) != 1 or g.generators[0].is_async:
                     continue
                 is_any = st.value.func.id == "any"
                 gen = g.generators[0]
